@@ -54,6 +54,14 @@ Definition coherentb (U : list node) : bool :=
   forallb (fun x => forallb (fun y => negb (Nat.eqb (fst x) (fst y)) || term_eqb (snd x) (snd y)) tu) tu.
 Definition belowb (b : nat) (U : list node) : bool := forallb (fun x => Nat.ltb (addr x) b) U.
 
+(* a property-replacing rule must not name a child field of some class (replace() would then install a non-node value) *)
+Definition setprop_ok (ct : ctable) (ms : methods) : bool :=
+  let is_child_name f := existsb (fun c => existsb (fun d => pystr_eqb (fd_name d) f) (child_fields ct (cd_name c))) ct in
+  forallb (fun m => match snd m with
+                    | ASetProp f _ | AGenSetProp f _ => negb (is_child_name f)
+                    | _ => true
+                    end) ms.
+
 Definition run_C09 (_ : pystr -> pystr) (t : term) : term :=
   match t with
   | TCon c args =>
@@ -63,6 +71,7 @@ Definition run_C09 (_ : pystr -> pystr) (t : term) : term :=
         match ctable_of_term ctt, get_bool st, map_opt method_of_term mt, node_of_term nt, get_nat nx with
         | Some ct, Some strict, Some ms, Some n, Some b =>
           if negb (wf_tree ct n) then terr "tree does not conform to the class table"
+          else if negb (setprop_ok ct ms) then terr "a property rule names a child field"
           else if negb (nodupb (map fst ms)) then terr "a visit method is defined twice"
           else if negb (belowb b (universe ms n)) then terr "an input address is not below the allocation counter"
           else if negb (coherentb (universe ms n)) then terr "one address, two different nodes"
